@@ -30,16 +30,16 @@ Qed.
 Definition all_lines_utf8 (bs : list N) : bool := forallb valid_utf8 (buf_lines bs).
 
 Lemma run_files_raw_valid A fl : forall files,
-  forallb (fun f => all_lines_utf8 (snd f)) files = true -> run_files_raw A fl files = run_files A fl files.
+  forallb (fun f => valid_utf8 (fst f) && all_lines_utf8 (snd f)) files = true -> run_files_raw A fl files = run_files A fl files.
 Proof.
-  induction files as [|[name content] r IH]; intros H; [reflexivity|]. cbn [forallb snd] in H.
-  apply andb_true_iff in H as [Hc Hr]. cbn [run_files_raw run_files]. unfold lines_raw.
-  rewrite (valid_prefix_all _ Hc). cbn [fst]. rewrite (IH Hr). reflexivity.
+  induction files as [|[name content] r IH]; intros H; [reflexivity|]. cbn [forallb fst snd] in H.
+  apply andb_true_iff in H as [Hc Hr]. apply andb_true_iff in Hc as [Hn Hc]. cbn [run_files_raw run_files]. unfold lines_raw, shown_name.
+  rewrite Hn, (valid_prefix_all _ Hc). cbn [fst]. rewrite (IH Hr). reflexivity.
 Qed.
 
 Theorem cli_main_raw_on_utf8_lines fl pfile pstr stdin files :
   (forall f, pfile = Some f -> all_lines_utf8 f = true) ->
-  all_lines_utf8 stdin = true -> forallb (fun f => all_lines_utf8 (snd f)) files = true ->
+  all_lines_utf8 stdin = true -> forallb (fun f => valid_utf8 (fst f) && all_lines_utf8 (snd f)) files = true ->
   cli_main_raw fl pfile pstr stdin files = cli_main fl pfile pstr stdin files.
 Proof.
   intros Hf Hs Hfs. unfold cli_main_raw, cli_main.
@@ -55,7 +55,7 @@ Qed.
 Fixpoint expected_files_raw (pvs : list (list N * unit)) (fl : cli_flags) (files : list (list N * list N)) : list N :=
   match files with
   | [] => []
-  | (name, content) :: r => expected_out pvs fl (Some name) 0 (fst (lines_raw content)) ++ expected_files_raw pvs fl r
+  | (name, content) :: r => expected_out pvs fl (shown_name name) 0 (fst (lines_raw content)) ++ expected_files_raw pvs fl r
   end.
 
 Definition cli_expected_raw (pvs : list (list N * unit)) (fl : cli_flags) (stdin : list N)
@@ -75,7 +75,7 @@ Lemma run_files_raw_any A pvs (CERT : bw_cert_ok ueqb A pvs = true) fl : forall 
 Proof.
   induction files as [|[name content] r IH]; intros Hok; [reflexivity|].
   inversion Hok as [|? ? Hf Hr]; subst. cbn [run_files_raw expected_files_raw]. cbn [snd] in Hf.
-  rewrite (run_lines_any A pvs CERT fl (Some name) _ 0%nat Hf). cbn [bind]. rewrite (IH Hr). cbn [bind]. reflexivity.
+  rewrite (run_lines_any A pvs CERT fl (shown_name name) _ 0%nat Hf). cbn [bind]. rewrite (IH Hr). cbn [bind]. reflexivity.
 Qed.
 
 Theorem cli_main_raw_lemma (fl : cli_flags) (pfile pstr : option (list N)) (stdin : list N) (files : list (list N * list N)) :
